@@ -14,11 +14,29 @@ Three families of cases:
             NaN operand values injected with a Failpoint; DifferentialEvolution(workers=-1) in a subprocess
             (vkit.c14_workers), three repetitions against three with workers=1.
 
-Known-defect mechanisms are keyed only when the library's state equals what the mechanism predicts:
-  lens-left-at-last-evaluation      variables == x of the LAST logged objective evaluation (1e-12)
+Mechanism keys are assigned only when the library's state equals what the mechanism predicts (otherwise `:unexplained`):
+  lens-left-at-last-evaluation      result.(x, fun) is a logged evaluation and the variables == x of the LAST logged
+                                    objective evaluation (1e-12); merit on the lens as left == last logged value
   de-multiprocess-lens-untouched    workers=-1, no evaluation in the parent, variables == start values
-  bounds-scaled-when-unscaled       apply_scaling=False and bounds == scale(min_val), scale(max_val)
-  undo-skips-update-optics          after undo() the lens differs from the snapshot, Optic.update() repairs it
+  bounds-scaled-when-unscaled       apply_scaling=False and bounds == scale(min_val), scale(max_val) (scale measured on a
+                                    sibling variable with apply_scaling=True); consequences: feasible start clipped /
+                                    rejected by scipy, raw value left outside (min_val, max_val), objective worse than start
+  undo-skips-update-optics          after undo() every entry of the prescription is as before the run except the picked-up
+                                    radius / solved image distance, which keep their values from just before undo()
+  solve-nan-poisons-lens            a trial made the marginal-ray solve write a NaN vertex position; it stays NaN for every
+                                    later evaluation and after return / undo
+  nonfinite-thickness-poisons-positions  scipy set a thickness variable to a non-finite trial value (logged); every
+                                    vertex position behind it is NaN from then on (thickness variables there read NaN,
+                                    undo() cannot repair it)
+  scipy-result-pair-inconsistent    (only once the lens is left at result.x) scipy returned x of one logged evaluation
+                                    with the objective of another (L-BFGS-B 'ABNORMAL'); merit == value logged at result.x
+  index-variable-discards-dispersion  an index variable on a catalogue glass: the first evaluation (and undo) leave a
+                                    constant-index medium; merit at the start point == merit of the lens with that glass flattened
+  scipy-iterate-worse-than-start-returned  scipy.optimize.minimize evaluated the start and handed back a logged iterate
+                                    with a larger objective (SLSQP at its iteration limit / on the flat 1e10 plateau, L-BFGS-B
+                                    after an abnormal line search on the penalty cliff)
+  trf-start-nudged-off-bound        least_squares moved a start within 1e-10 of a bound into the interior before its first
+                                    evaluation; objective <= that first evaluation
 """
 import json
 import math
@@ -43,7 +61,7 @@ RULE = ('random axial lenses (2-6 interfaces, conics/even aspheres, infinite/fin
         'image-surface marginal-ray solves and NaN faults; an optimiser case is non-trivial when >= 10 objective '
         'evaluations were made and the merit changed; distinct = distinct case hash')
 TIERS = {'quick': dict(shards=8, cases=8, budget_s=240, watchdog_s=900),
-         'thorough': dict(shards=16, cases=150, budget_s=600, watchdog_s=2400)}
+         'thorough': dict(shards=16, cases=320, budget_s=570, watchdog_s=2400)}
 MIN_NONTRIVIAL = {'quick': 40, 'thorough': 500}
 _FE_MIN = {'quick': 1, 'thorough': 20}
 MIN_EVALS = {'merit-definition': {'quick': 60, 'thorough': 1000},
@@ -88,6 +106,8 @@ MECH_LAST, MECH_MP, MECH_BOUNDS, MECH_UNDO = ('lens-left-at-last-evaluation', 'd
 MECH_FAIL = 'scipy-iterate-worse-than-start-returned'
 MECH_TRF = 'trf-start-nudged-off-bound'
 MECH_NANSOLVE = 'solve-nan-poisons-lens'
+MECH_NANTHK = 'nonfinite-thickness-poisons-positions'
+MECH_PAIR = 'scipy-result-pair-inconsistent'
 MECH_DISP = 'index-variable-discards-dispersion'
 DE_MP_TIMEOUT_S = int(os.environ.get('C14_DE_MP_TIMEOUT_S', '300'))
 
@@ -544,6 +564,13 @@ def case_vars(case, rec):
         rec.nontrivial_case()
 
 
+def poisoned_from(vs_list, o):
+    """Smallest surface number of a thickness variable that scipy ever set to a non-finite trial value (None if none):
+    Optic.set_thickness then leaves every later vertex position NaN for good."""
+    ks = [vs_list[i]['kw']['surface_number'] for i in o.get('nonfinite_x_vars', []) if vs_list[i]['kind'] == 'thickness']
+    return min(ks) if ks else None
+
+
 def judge_run(rec, info, o, fe):
     """Decide the end-state clauses on one observed optimize() call.  info: variables, bounds status, flags."""
     vs_list, bstat = info['vars'], info['bstat']
@@ -558,11 +585,22 @@ def judge_run(rec, info, o, fe):
     # as-built models: scipy's result is one of the logged evaluations and the lens sits at the LAST logged one; with
     # workers=-1 nothing is evaluated in the parent and the lens keeps its start values
     alt, flags = None, ()
+    kp = poisoned_from(vs_list, o)
     if last is not None and o['returned_x_evaluated']:
         alt, flags = np.asarray(last[0], dtype=float), (MECH_LAST,)
+        if kp is not None:
+            alt = alt.copy()
+            for i, vs in enumerate(vs_list):
+                if vs['kind'] == 'thickness' and vs['kw']['surface_number'] >= kp:
+                    alt[i] = np.nan
+            flags = (MECH_LAST, MECH_NANTHK)
     elif last is None and fe == 'de-mp':
         alt, flags = x0, (MECH_MP,)
-    rec.close('lens-at-returned-x', got, x, 1e-12, key='lens-at-returned-x:unexplained', scale=xscale(x), alt=alt, flags=flags,
+    # a thickness is read back as the difference of two absolutely stored vertex positions: rounding 16 eps max|z|
+    xs = xscale(x)
+    thk = np.array([vs['kind'] == 'thickness' for vs in vs_list])
+    xs = xs + np.where(thk, 16 * np.finfo(float).eps * float(o.get('zmax_seen', 0.0)) / 1e-12, 0.0)
+    rec.close('lens-at-returned-x', got, x, 1e-12, key='lens-at-returned-x:unexplained', scale=xs, alt=alt, flags=flags,
               msg=f'{fe}: after optimize() the variables are {got.tolist()} but result.x = {x.tolist()}'
                   + (f'; last objective evaluation was at {last[0]}' if last else '; start values ' + str(x0.tolist())))
     # -- objective-reproduced ----------------------------------------------------------------------------
@@ -572,10 +610,17 @@ def judge_run(rec, info, o, fe):
         alt, flags = None, ()
         if last is not None and (o['returned_point_evaluated'] or o['returned_fun_is_logged_value']):
             alt, flags = last[1], (MECH_LAST,)
+            vx = o.get('value_at_returned_x')
+            if not o['returned_point_evaluated'] and vx is not None and not o['success'] \
+                    and abs(o['merit_after'] - vx) < abs(o['merit_after'] - last[1]):
+                # scipy (L-BFGS-B after an abnormal line search) handed back x of one logged evaluation with the fun of
+                # another; on a lens that IS at result.x the merit equals the value logged at result.x
+                alt, flags = vx, (MECH_PAIR,)
         elif last is None and fe == 'de-mp':
             alt, flags = o['m0'], (MECH_MP,)
         rec.close('objective-reproduced', o['merit_after'], o['fun'], 1e-9, key='objective-reproduced:unexplained',
-                  scale=max(abs(o['fun']), 1e-30), alt=alt, flags=flags,
+                  scale=max(abs(o['fun']), o.get('cond_after', 0.0), 4 * o.get('round_sens', 0.0) / 1e-9, 1e-30),
+                  alt=alt, flags=flags,
                   msg=f'{fe}: merit re-evaluated on the lens as left = {o["merit_after"]!r}, returned objective = {o["fun"]!r}')
     # the merit accessor itself, on the lens as left and at the start
     for a_, b_, w_ in ((o['m0'], o['m0_oracle'], 'at start'), (o['merit_after'], o['merit_after_oracle'], 'after return')):
@@ -586,7 +631,9 @@ def judge_run(rec, info, o, fe):
     fault0 = bool(head) and head[0][2] > 0
     m0_flat = info.get('m0_flat') if info.get('first_run', True) else None
     if head and np.allclose(head[0][0], x0, rtol=0, atol=1e-12 * float(np.max(xscale(x0)))) and not fault0:
-        rec.close('objective-is-merit', head[0][1], o['m0'], 1e-9, key='objective-is-merit:unexplained', scale=max(abs(o['m0']), 1e-30),
+        # the first evaluation re-sets the variables through update(): the lens may differ from the start by rounding
+        rec.close('objective-is-merit', head[0][1], o['m0'], 1e-9, key='objective-is-merit:unexplained',
+                  scale=max(abs(o['m0']), 4 * o.get('round_sens', 0.0) / 1e-9, 1e-30),
                   alt=m0_flat, flags=((MECH_DISP,) if m0_flat is not None else ()),
                   msg=f'{fe}: first objective evaluation at the start point = {head[0][1]!r}, merit at start = {o["m0"]!r}')
     # -- not-worse-than-start ----------------------------------------------------------------------------
@@ -596,11 +643,14 @@ def judge_run(rec, info, o, fe):
     slack = 1e-12 * xscale(x0)
     start_outside = [bool(x0[i] < lo[i] - slack[i] or x0[i] > hi[i] + slack[i]) for i in range(len(x0))]
     clipped_by_mech = any(start_outside[i] and bstat[i] == 'mech' for i in range(len(x0)))
-    ok = o['fun'] <= m_start * (1 + 1e-12) + 1e-300
+    # + the measured rounding sensitivity of the merit (an optimiser that makes no progress returns the objective of
+    # its own first evaluation, made on a lens re-set through update())
+    ok = o['fun'] <= m_start * (1 + 1e-12) + 1e-300 + 4 * o.get('round_sens', 0.0)
     def near(a_, b_, rel):
         return a_ is not None and b_ is not None and abs(a_ - b_) <= rel * max(abs(a_), abs(b_), 1e-300)
     head_at_x0 = bool(head) and np.allclose(head[0][0], x0, rtol=0, atol=1e-12 * float(np.max(xscale(x0))))
-    start_seen = head_at_x0 and (near(head[0][1], o['m0'], 1e-9) or near(head[0][1], m0_flat, 1e-9))
+    start_seen = head_at_x0 and (near(head[0][1], o['m0'], 1e-9) or near(head[0][1], m0_flat, 1e-9)
+                                 or abs(head[0][1] - o['m0']) <= 4 * o.get('round_sens', 0.0))
     mech = 'unexplained'
     if clipped_by_mech:
         mech = MECH_BOUNDS
@@ -632,8 +682,10 @@ def judge_run(rec, info, o, fe):
         # as-built: a feasible start that lies outside the wrongly scaled bounds may be handed back unchanged
         kept_start = bstat[i] == 'mech' and start_outside[i] and all(
             (lo[i] - sl <= t <= hi[i] + sl) or t == x0[i] for t in (x[i], got[i]))
+        nan_thk = (kp is not None and vs['kind'] == 'thickness' and vs['kw']['surface_number'] >= kp and math.isnan(got[i])
+                   and lo[i] - sl <= x[i] <= hi[i] + sl)
         rec.check('bounds-respected', inside_given,
-                  key='bounds-respected:' + (MECH_BOUNDS if kept_start else 'unexplained'),
+                  key='bounds-respected:' + (MECH_BOUNDS if kept_start else MECH_NANTHK if nan_thk else 'unexplained'),
                   msg=f'{fe}: {vs["kind"]} variable: result.x[{i}] = {x[i]!r}, value left = {got[i]!r}, bounds handed to the '
                       f'optimiser = ({lo[i]!r}, {hi[i]!r})')
         raw = o['raw_after'][i]
@@ -642,21 +694,24 @@ def judge_run(rec, info, o, fe):
         sr = 1e-12 * max(1.0, abs(raw), abs(rlo) if np.isfinite(rlo) else 0, abs(rhi) if np.isfinite(rhi) else 0)
         inside_raw = rlo - sr <= raw <= rhi + sr
         rec.check('bounds-respected', inside_raw,
-                  key='bounds-respected:' + (MECH_BOUNDS if (bstat[i] == 'mech' and (inside_given or kept_start)) else 'unexplained'),
+                  key='bounds-respected:' + (MECH_BOUNDS if (bstat[i] == 'mech' and (inside_given or kept_start))
+                                             else MECH_NANTHK if (nan_thk and math.isnan(raw)) else 'unexplained'),
                   msg=f'{fe}: {vs["kind"]} (apply_scaling={vs["scaled"]}) left at {raw!r} in lens units, outside '
                       f'(min_val, max_val) = ({vs.get("min_val")!r}, {vs.get("max_val")!r})')
     # -- pickups / solves --------------------------------------------------------------------------------
-    judge_dependents(rec, o['dependents'], f'{fe}: after optimize()')
+    judge_dependents(rec, o['dependents'], f'{fe}: after optimize()', nan_mech=(MECH_NANTHK if kp is not None else MECH_NANSOLVE))
     # -- NaN faults --------------------------------------------------------------------------------------
     for i, v in o['fault_evals']:
         rec.check('nan-fault', v == W.PENALTY, key='nan-fault:unexplained',
                   msg=f'{fe}: an operand returned NaN at objective evaluation {i}; the objective there was {v!r}, not 1e10')
-    rec.check('objective-finite', o['nonfinite_objectives'] == 0, key='objective-finite:unexplained',
-              msg=f'{fe}: {o["nonfinite_objectives"]} objective evaluation(s) returned a non-finite value')
+    rec.check('objective-never-nan', o['nan_objectives'] == 0, key='objective-never-nan:unexplained',
+              msg=f'{fe}: {o["nan_objectives"]} objective evaluation(s) returned NaN')
+    if o['nonfinite_objectives'] > o['nan_objectives']:
+        rec.cls('objective-overflowed-to-inf')        # inf is not NaN: the statement's penalty clause does not apply
     rec.event('nan_faults_injected', len(o['fault_evals']))
 
 
-def judge_dependents(rec, dep, what):
+def judge_dependents(rec, dep, what, nan_mech=None):
     if 'pickup' in dep:
         a, b = dep['pickup']
         rec.check('pickups-solves-satisfied', a == b or abs(a - b) <= 1e-9 * max(1.0, abs(b)), key='pickups-solves-satisfied:unexplained',
@@ -668,7 +723,7 @@ def judge_dependents(rec, dep, what):
         tol = 1e-9 * max(1.0, abs(h), ymax) + 16 * np.finfo(float).eps * zmax * umax
         poisoned = not math.isfinite(y) and not math.isfinite(zK)
         rec.check('pickups-solves-satisfied', abs(y - h) <= tol,
-                  key='pickups-solves-satisfied:' + (MECH_NANSOLVE if poisoned else 'unexplained'), resid=abs(y - h), tol=tol,
+                  key='pickups-solves-satisfied:' + ((nan_mech or MECH_NANSOLVE) if poisoned else 'unexplained'), resid=abs(y - h), tol=tol,
                   msg=f'{what}: marginal ray height at the solve surface = {y!r}, requested {h!r}'
                       + (f'; the vertex position of the solve surface is {zK!r}' if poisoned else ''))
 
@@ -683,7 +738,7 @@ def glass_index_vars(case):
     return out
 
 
-def judge_undo(rec, case, before, labels, u, what, raw0=None, zmax_seen=0.0):
+def judge_undo(rec, case, before, labels, u, what, raw0=None, zmax_seen=0.0, nan_from=None):
     """undo() restores the snapshot taken before the run.  As-built model of `undo-skips-update-optics` (undo re-sets the
     variables and does not re-apply pickups / solves): every entry as before the run, except that the picked-up radius
     and the solved image distance keep the values they had immediately before undo()."""
@@ -723,6 +778,13 @@ def judge_undo(rec, case, before, labels, u, what, raw0=None, zmax_seen=0.0):
         return a
     cands = []
     dep = bool(case.get('pickup') or case.get('solve'))
+    if nan_from is not None:
+        a = want.copy()
+        for lb, i in ix.items():
+            k_, f_ = lb.split('.', 1)
+            if f_ == 'z' and int(k_) > nan_from:
+                a[i] = np.nan
+        cands.append((a, (MECH_NANTHK,)))
     if gv:
         cands.append((with_disp(want), (MECH_DISP,)))
     stale = MECH_UNDO
@@ -835,6 +897,7 @@ def case_opt(case, rec):
     nontrivial = False
     nrun = 0
     zseen = 0.0
+    nan_from = None
     for step in case['seq']:
         if step == 'o':
             o = W.observe_run(c, fe, case['opts'], nan_at=(case.get('nan_at') if nrun == 0 else None),
@@ -845,6 +908,8 @@ def case_opt(case, rec):
                     return
                 raise o['error_obj']
             zseen = max(zseen, o['zmax_seen'])
+            kp_ = poisoned_from(case['variables'], o)
+            nan_from = kp_ if nan_from is None else (nan_from if kp_ is None else min(nan_from, kp_))
             stack.append((o['snap_before'], o['snap_labels'], o['raw0']))
             info['first_run'] = (nrun == 1)
             judge_run(rec, info, o, fe)
@@ -874,7 +939,7 @@ def case_opt(case, rec):
                 (before, labels), raw0 = W.flat_snapshot(c.lens), None
                 what = f'{fe}: undo() with nothing to undo'
             u = W.observe_undo(c)
-            judge_undo(rec, case, before, labels, u, what, raw0, zseen)
+            judge_undo(rec, case, before, labels, u, what, raw0, zseen, nan_from)
             if has_dep:
                 c.lens.update()      # later steps start from a consistent lens (the stale state is recorded above)
             rec.check('undo-history', u['stack_len'] == len(stack), key='undo-history:unexplained',
